@@ -21,6 +21,9 @@ def _exprs_to_axes(exprs):
         for expr in root.nodes():
             if isinstance(expr, stage3.Axis) and not expr.name.startswith("unnamed."):
                 tokens = expr.name.split(".")
+                if not tokens[0].isidentifier() or not all(t.isdigit() for t in tokens[1:]):
+                    # Axes of anonymous or unexpanded ellipses have no name that could be reported
+                    continue
                 values[tokens[0]].append((tuple(int(t) for t in tokens[1:]), expr.value))
 
     values2 = {}
